@@ -419,6 +419,22 @@ class Inliner:
                 host_names |= {n.id for x in out for n in ast.walk(x) if isinstance(n, ast.Name)}
                 return out
             return None
+        # `self._h(..).m(args)` (as a statement, or as a whole right-hand side): the helper runs first, its result is the receiver --
+        # `t = self._h(..)` / `t.m(args)`
+        outer_call = s.value if isinstance(s, (ast.Expr, ast.Assign, ast.Return)) and isinstance(getattr(s, "value", None), ast.Call) else None
+        if outer_call is not None and isinstance(outer_call.func, ast.Attribute) and isinstance(outer_call.func.value, ast.Call):
+            r0 = self.resolve(outer_call.func.value, cls)
+            if r0 is not None and r0[0].expr is None and not r0[0].generator:
+                tmp = f"_recv_{r0[0].fn.name.strip('_')}"
+                while tmp in host_names:
+                    tmp += "_"
+                first = ast.copy_location(ast.Assign(targets=[ast.Name(id=tmp, ctx=ast.Store())], value=outer_call.func.value), s)
+                host_names.add(tmp)
+                rep = self.inline_stmt(first, cls, host_names)
+                if rep is not None:
+                    outer_call.func.value = ast.copy_location(ast.Name(id=tmp, ctx=ast.Load()), s)
+                    return rep + [s]
+                return None
         # `obj.m(helper(...))` as a statement: the helper (another scope: it cannot rebind `obj`) runs first either way, so this is
         # `t = helper(...)` / `obj.m(t)`
         if isinstance(s, ast.Expr) and isinstance(s.value, ast.Call) and isinstance(s.value.func, ast.Attribute) and _simple(s.value.func.value) \
